@@ -111,7 +111,9 @@ def hist_impl(a):
             break
         expected.update(want)
         for mode in ("same", "fresh"):
+            saved = None
             if mode == "fresh":
+                saved = h.save_process()  # another process looks at the store; the evaluating process lives on
                 env.process()
             for (p, val) in expected.items():
                 got = _load(p)
@@ -119,6 +121,8 @@ def hist_impl(a):
                     LAST_DETAIL[0] = "after step %d (versions so far %r): dds.load(%s) in %s process -> %r, the latest evaluation that kept it returned %r" % (k, "?", p, mode, got, val)
                     ok = False
                     break
+            if saved is not None:
+                h.restore_process(saved)
             if not ok:
                 break
         if ok and sel["store"] != "memory":
@@ -199,10 +203,14 @@ def replay(sel, args, fn):
             r = dds.eval(f) if sel.get("style", "eval") == "eval" else f()
             expected.update(p2.plain(entry))
             for mode in ("same", "fresh"):
+                saved = None
                 if mode == "fresh":
+                    saved = h.save_process()
                     process()
-                for (p, val) in expected.items():
-                    got = _load(p)
+                res = [(p, val, _load(p)) for (p, val) in expected.items()]
+                if saved is not None:
+                    h.restore_process(saved)
+                for (p, val, got) in res:
                     if got != ("ok", val):
                         return {"reproduced": True, "detail": "real local store, versions %r: after step %d dds.load(%s) in %s process -> %r, expected %r" % ([args["v%d" % j] for j in range(k + 1)], k, p, mode, got, val)}
             for (p, val) in expected.items():
